@@ -30,6 +30,7 @@ type replayDriver struct {
 var replayDrivers = map[string]replayDriver{
 	"codec-encode": {"pkg/entities", "entities/codec_replay_test.go", "TestVerifReplayCodec", "encode", 120},
 	"codec-decode": {"pkg/entities", "entities/codec_replay_test.go", "TestVerifReplayCodec", "decode", 120},
+	"session":      {"pkg/exporter", "exporter/session_replay_test.go", "TestVerifReplaySession", "", 120},
 }
 
 var valueLine = regexp.MustCompile(`\(\s*([^\s()]+)\s+(\(-\s*\d+\)|-?\d+|true|false)\s*\)`)
